@@ -42,3 +42,129 @@ Theorem C04_exactly_one_table_hosts_the_key :
       exists l, references_for_sql h t tb = Ok l /\ (In r l <-> t = holder).
 Proof. exact exactly_one_table_hosts_the_key. Qed.
 Print Assumptions C04_exactly_one_table_hosts_the_key.
+
+(* ---- the full text of the statement (proofs/RefText.v) ---- *)
+(* For every heap and every `>`, `-` or `<` reference whose names, comment and actions contain no brace (the complement of
+   defect D5): the DDL of the reference is, character for character,
+     [-- comment]  ALTER TABLE <key table> ADD [CONSTRAINT "name" ]FOREIGN KEY (<key columns>) REFERENCES <other table> (<other columns>)[ ON UPDATE X][ ON DELETE Y];
+   with the key side = col1 for `>` and `-`, col2 for `<` (key_side); inline: the same clause without ALTER TABLE .. ADD and
+   without the semicolon.  The column lists are the columns of each side in order and by their current names, the tables the
+   current full names of the first column's table (C04_sides_are_listed_in_order_by_current_names). *)
+From PyDBML Require Import Tools CommentFacts LiveLinks RefText.
+Theorem C04_non_inline_reference_statement_text :
+  forall h r c1 c2 st sn rt rn,
+  check_attributes (OReference r) = Ok tt -> validate_ref_cols h r = Ok (c1, c2) -> direct_kind r = true -> ref_inline r = false ->
+  first_table_full_name h (fst (key_side r c1 c2)) = Ok st -> col_names h (fst (key_side r c1 c2)) = Ok sn ->
+  first_table_full_name h (snd (key_side r c1 c2)) = Ok rt -> col_names h (snd (key_side r c1 c2)) = Ok rn ->
+  nobrace (fstr (r_comment r)) -> nobrace st -> nobrace sn -> nobrace rt -> nobrace rn -> on_ok r ->
+  sql_reference_simple h r =
+    Ok (with_comment (r_comment r)
+          (s2l "ALTER TABLE " ++ st ++ s2l " ADD " ++ constraint_text r ++ s2l "FOREIGN KEY (" ++ sn ++ s2l ") REFERENCES " ++ rt
+           ++ s2l " (" ++ rn ++ [41%N] ++ on_clauses r ++ [59%N])).
+Proof. exact sql_reference_text_alter. Qed.
+Print Assumptions C04_non_inline_reference_statement_text.
+
+Theorem C04_inline_reference_clause_text :
+  forall h r c1 c2 sn rt rn,
+  check_attributes (OReference r) = Ok tt -> validate_ref_cols h r = Ok (c1, c2) -> direct_kind r = true -> ref_inline r = true ->
+  col_names h (fst (key_side r c1 c2)) = Ok sn ->
+  first_table_full_name h (snd (key_side r c1 c2)) = Ok rt -> col_names h (snd (key_side r c1 c2)) = Ok rn ->
+  nobrace (fstr (r_comment r)) -> nobrace sn -> nobrace rt -> nobrace rn -> on_ok r ->
+  sql_reference_simple h r =
+    Ok (with_comment (r_comment r)
+          (constraint_text r ++ s2l "FOREIGN KEY (" ++ sn ++ s2l ") REFERENCES " ++ rt ++ s2l " (" ++ rn ++ [41%N] ++ on_clauses r)).
+Proof. exact sql_reference_text_inline. Qed.
+Print Assumptions C04_inline_reference_clause_text.
+
+Theorem C04_sides_are_listed_in_order_by_current_names :
+  (forall h cols ccs, Forall2 (fun c cc => h_column h c = Some cc) cols ccs ->
+     col_names h cols = Ok (join (s2l ", ") (map (fun cc => q2 (fstr (c_name cc))) ccs))) /\
+  (forall h c rest cc t tb, h_column h c = Some cc -> c_table cc = Some t -> h_table h t = Some tb ->
+     first_table_full_name h (c :: rest) = Ok (full_name_for_sql (t_schema tb) (t_name tb))).
+Proof. split; [exact sql_col_names_current|exact sql_ref_table_current]. Qed.
+Print Assumptions C04_sides_are_listed_in_order_by_current_names.
+
+(* the template mechanism: text without braces passes through str.format(c=...) unchanged and {c} becomes the CONSTRAINT text *)
+Theorem C04_format_replaces_the_one_placeholder :
+  forall cval pre post, nobrace pre -> nobrace post -> py_format_c cval (pre ++ s2l "{c}" ++ post) = Ok (pre ++ cval ++ post).
+Proof. exact py_format_c_template. Qed.
+Print Assumptions C04_format_replaces_the_one_placeholder.
+
+Theorem C04_reference_text_example :
+  sql_reference_simple rt_heap rt_ref =
+  Ok (s2l "-- why
+ALTER TABLE ""child"" ADD CONSTRAINT ""fk"" FOREIGN KEY (""x"", ""y"") REFERENCES ""parent"" (""a"", ""b"") ON UPDATE CASCADE;").
+Proof. exact reference_text_example. Qed.
+Print Assumptions C04_reference_text_example.
+
+(* ---- the join table of a many-to-many reference (proofs/JoinTable.v) ---- *)
+(* For every heap in which both sides of a `<>` reference resolve, Reference.join_table (a new abstract Table on every access):
+   leaves every existing object as it is; the table is named <left table>_<right table>, lives in the left table's schema, has no
+   indexes, and lists exactly one column per referenced column — left side first, in order — each named <its table>_<its name>,
+   typed like the referenced column, NOT NULL and pk (so the CREATE TABLE carries a primary key over all of them, C03), not
+   unique, not autoincrement, without default, attached to the join table.  [join_table_exact] gives the final heap as an equation. *)
+From PyDBML Require Import JoinTable.
+Theorem C04_join_table_of_a_many_to_many_reference :
+  forall h rid r c1 c2 t1id t2id tt1 tt2 extN cols,
+  h_reference h rid = Some r -> ostr_eqb (r_type r) (Some MANY_TO_MANY) = true ->
+  ref_table1 h r = Ok (Some t1id) -> ref_table2 h r = Ok (Some t2id) -> h_table h t1id = Some tt1 -> h_table h t2id = Some tt2 ->
+  r_col1 r = Some c1 -> r_col2 r = Some c2 -> jt_ext h (length h) None (c1 ++ c2) = Some (extN, cols) ->
+  exists h' t tb,
+    ref_join_table rid h = (h', Ok (Some t)) /\ h_table h' t = Some tb /\
+    (forall x, x < length h -> nth_error h' x = nth_error h x) /\
+    t_name tb = Some (fstr (t_name tt1) ++ 95%N :: fstr (t_name tt2)) /\ t_schema tb = t_schema tt1 /\ t_abstract tb = true /\
+    t_indexes tb = [] /\ t_columns tb = cols /\ length cols = length c1 + length c2 /\
+    Forall2 (fun c jc => exists cc tc tcc jcc, h_column h c = Some cc /\ c_table cc = Some tc /\ h_table h tc = Some tcc /\ h_column h' jc = Some jcc /\
+               c_name jcc = Some (fstr (t_name tcc) ++ 95%N :: fstr (c_name cc)) /\ c_type jcc = c_type cc /\
+               c_not_null jcc = true /\ c_pk jcc = true /\ c_unique jcc = false /\ c_autoinc jcc = false /\ c_default jcc = DNone /\
+               c_table jcc = Some t) (c1 ++ c2) cols.
+Proof. exact join_table_spec. Qed.
+Print Assumptions C04_join_table_of_a_many_to_many_reference.
+
+(* the hypothesis "the columns resolve" (jt_ext = Some) holds exactly when every referenced column is a column of a table *)
+Theorem C04_join_table_example :
+  match ref_join_table 6 jx_heap with
+  | (h', Ok (Some t)) =>
+      firstn 7 h' = jx_heap /\
+      option_map (fun tb => (t_name tb, t_schema tb, t_abstract tb, t_columns tb)) (h_table h' t)
+        = Some (Some (s2l "posts_tags"), Some (s2l "blog"), true, [8; 10; 12]) /\
+      map (fun c => option_map (fun cc => (c_name cc, c_type cc, c_not_null cc, c_pk cc, c_table cc)) (h_column h' c)) [8; 10; 12]
+        = [Some (Some (s2l "posts_a"), CTStr (s2l "int"), true, true, Some t);
+           Some (Some (s2l "posts_b"), CTStr (s2l "text"), true, true, Some t);
+           Some (Some (s2l "tags_x"), CTStr (s2l "uuid"), true, true, Some t)]
+  | _ => False
+  end.
+Proof. exact join_table_example. Qed.
+Print Assumptions C04_join_table_example.
+
+(* ---- the DDL of a many-to-many reference (proofs/M2MText.v) ---- *)
+(* CREATE TABLE of the join table, then one ALTER TABLE per side: the first |col1| columns of the join table reference col1, the
+   others col2; both statements carry the reference's comment and actions, never a CONSTRAINT name ({c} is filled with ''). *)
+From PyDBML Require Import M2MText.
+Theorem C04_many_to_many_reference_text :
+  forall h rid r c1 c2 h' jt jtt table_sql st1 sn1 rt1 rn1 st2 sn2 rt2 rn2,
+  ref_join_table rid h = (h', Ok (Some jt)) -> h_table h' jt = Some jtt -> r_col1 r = Some c1 -> r_col2 r = Some c2 ->
+  sql_table h' jt jtt = Ok table_sql ->
+  first_table_full_name h' (take (length c1) (t_columns jtt)) = Ok st1 -> col_names h' (take (length c1) (t_columns jtt)) = Ok sn1 ->
+  first_table_full_name h' c1 = Ok rt1 -> col_names h' c1 = Ok rn1 ->
+  first_table_full_name h' (drop (length c1) (t_columns jtt)) = Ok st2 -> col_names h' (drop (length c1) (t_columns jtt)) = Ok sn2 ->
+  first_table_full_name h' c2 = Ok rt2 -> col_names h' c2 = Ok rn2 ->
+  nobrace table_sql -> nobrace (fstr (r_comment r)) -> on_ok r ->
+  nobrace st1 -> nobrace sn1 -> nobrace rt1 -> nobrace rn1 -> nobrace st2 -> nobrace sn2 -> nobrace rt2 -> nobrace rn2 ->
+  sql_reference_m2m h rid r = Ok (table_sql ++ [cLF; cLF] ++ alter_text r st1 sn1 rt1 rn1 ++ [cLF; cLF] ++ alter_text r st2 sn2 rt2 rn2).
+Proof. exact sql_m2m_text. Qed.
+Print Assumptions C04_many_to_many_reference_text.
+
+Theorem C04_many_to_many_text_example :
+  sql_reference_m2m jx_heap 6 jx_ref = Ok (s2l "CREATE TABLE ""blog"".""posts_tags"" (
+  ""posts_a"" int NOT NULL,
+  ""posts_b"" text NOT NULL,
+  ""tags_x"" uuid NOT NULL,
+  PRIMARY KEY (""posts_a"", ""posts_b"", ""tags_x"")
+);
+
+ALTER TABLE ""blog"".""posts_tags"" ADD FOREIGN KEY (""posts_a"", ""posts_b"") REFERENCES ""blog"".""posts"" (""a"", ""b"");
+
+ALTER TABLE ""blog"".""posts_tags"" ADD FOREIGN KEY (""tags_x"") REFERENCES ""tags"" (""x"");").
+Proof. exact m2m_text_example. Qed.
+Print Assumptions C04_many_to_many_text_example.
